@@ -186,6 +186,13 @@ theorem Tracks.congr {st : St} {t t' : T} (h : Tracks st t) (hpc : t.pc = t'.pc)
     · exact g2 l hl
     · exact g3 l hl
 
+/-- rewrite the PC and the vector registers of a tracked description (lane-wise on the 64 lanes) -/
+theorem Tracks.upd {st : St} {t : T} (h : Tracks st t) (pc' : Nat) (f0 f1 f2 f3 : Nat → Nat) (hpc : t.pc = pc')
+    (g0 : ∀ l, l < 64 → t.v0 l = f0 l) (g1 : ∀ l, l < 64 → t.v1 l = f1 l)
+    (g2 : ∀ l, l < 64 → t.v2 l = f2 l) (g3 : ∀ l, l < 64 → t.v3 l = f3 l) :
+    Tracks st { t with pc := pc', v0 := f0, v1 := f1, v2 := f2, v3 := f3 } :=
+  h.congr hpc rfl rfl rfl rfl rfl rfl rfl rfl rfl rfl rfl g0 g1 g2 g3 (fun _ => rfl)
+
 section lifts
 variable (P : Program) (hP : P.cdna3 = false) (base k : Nat)
 include hP
